@@ -69,6 +69,48 @@ theorem readPacket_writePacket (cfg : Cfg) (chans : List Int) (c : Nat) (ch : In
     · simp only [hm, if_false] at hrtp ⊢
       simp [hrtp]
 
+/-- frame round trip for EVERY payload (no assumption on the RTP header): with the recovering,
+    packet-returning reader the frame `Packet.Write` emitted is consumed exactly — the stream is
+    left at `rest` — and it is either delivered with the same channel type and payload, or, on a
+    media channel whose payload has no parsable RTP header, skipped. -/
+theorem readPacket_writePacket_any (cfg : Cfg) (hrec : cfg.rtpRecover = true) (hbad : cfg.badHeaderPacket = true)
+    (chans : List Int) (c : Nat) (ch : Int) (data rest : Bytes)
+    (hc : c < 4) (hch : chans[c]? = some ch) (hr : 0 ≤ ch ∧ ch ≤ 255)
+    (hfirst : findChannel chans ch 0 = some c) (hlen : data.length ≤ 65535) :
+    ∃ w o, writePacket chans c data = some w ∧ readPacket cfg chans (w ++ rest) = .ok (o, rest) ∧
+      (∀ p, o = some p → p.channel = c ∧ p.data = data) ∧
+      (o = none → (c = 0 ∨ c = 2) ∧ ∀ off, rtpUnmarshal data ≠ .ok off) := by
+  by_cases hm : c = 0 ∨ c = 2
+  · cases hu : rtpUnmarshal data with
+    | ok off =>
+      obtain ⟨w, hw, hrd⟩ := readPacket_writePacket cfg chans c ch data rest off hc hch hr hfirst hlen (by simp [hm, hu])
+      refine ⟨w, _, hw, hrd, ?_, fun h => by cases h⟩
+      intro p hp; cases hp; exact ⟨rfl, rfl⟩
+    | error e =>
+      have hn : data.length % 65536 = data.length := Nat.mod_eq_of_lt (by omega)
+      have hcge : ¬ c ≥ 4 := by omega
+      have hrange : ¬ (ch < 0 ∨ ch > 255) := by omega
+      refine ⟨[0x24, UInt8.ofNat ch.toNat, UInt8.ofNat (data.length / 256), UInt8.ofNat (data.length % 256)] ++ data, none, ?_, ?_,
+        (fun p h => by cases h), (fun _ => ⟨hm, fun off h => by cases h⟩)⟩
+      · simp [writePacket, hcge, hch, hrange, hn]
+      · have hchn : ((UInt8.ofNat ch.toNat).toNat : Int) = ch := by
+          have : ch.toNat < 256 := by omega
+          simp [UInt8.toNat_ofNat, Nat.mod_eq_of_lt this]; omega
+        have e' : [0x24, UInt8.ofNat ch.toNat, UInt8.ofNat (data.length / 256), UInt8.ofNat (data.length % 256)] ++ data ++ rest
+            = [0x24, UInt8.ofNat ch.toNat, UInt8.ofNat (data.length / 256), UInt8.ofNat (data.length % 256)] ++ (data ++ rest) := by simp
+        unfold readPacket
+        rw [e']
+        have h4 := readFull_append [0x24, UInt8.ofNat ch.toNat, UInt8.ofNat (data.length / 256), UInt8.ofNat (data.length % 256)] (data ++ rest)
+        simp only [List.length_cons, List.length_nil] at h4
+        rw [h4]
+        simp only [be16_split data.length (by omega), readFull_append, hchn, hfirst]
+        have hmod : c % 256 = c := Nat.mod_eq_of_lt (by omega)
+        simp only [hmod, hm, if_true, hu]
+        cases e <;> simp [hrec, hbad]
+  · obtain ⟨w, hw, hrd⟩ := readPacket_writePacket cfg chans c ch data rest 0 hc hch hr hfirst hlen (by simp [hm])
+    refine ⟨w, _, hw, hrd, ?_, fun h => by cases h⟩
+    intro p hp; cases hp; exact ⟨rfl, rfl⟩
+
 /-! ### line limit: a line is refused on the evidence of a bounded prefix -/
 
 theorem breakLF_append_noLF (l rest : Bytes) (h : (0x0A : UInt8) ∉ l) :
@@ -110,5 +152,119 @@ theorem readLine_too_long (cfg : Cfg) (m : Nat) (hm : cfg.maxLine = some m) (l r
       simp at this ⊢; omega
   simp
   exact hlen
+
+/-! ### whatever is accepted is bounded (stream level) -/
+
+theorem contentLength_le (cfg : Cfg) (m : Nat) (hm : cfg.maxBody = some m) (h : Header) (n : Nat)
+    (hc : contentLength cfg h = .ok n) : n ≤ m := by
+  unfold contentLength at hc
+  rw [hm] at hc
+  simp only at hc
+  split at hc
+  · cases hc
+  · cases hc; omega
+  · split at hc
+    · cases hc
+    · split at hc
+      · cases hc; omega
+      · cases hc; omega
+
+theorem readBody_le (cfg : Cfg) (m : Nat) (hm : cfg.maxBody = some m) (hb : cfg.bodyErrReturned = true)
+    (h : Header) (s b r : Bytes) (hr : readBody cfg h s = .ok (b, r)) : b.length ≤ m := by
+  unfold readBody at hr
+  split at hr
+  · cases hr
+  · cases hr; simp
+  · rename_i cl _ hcl
+    have := contentLength_le cfg m hm h cl hcl
+    split at hr
+    · rename_i r' hrf
+      cases hr
+      have := (readFull_ok_length hrf).1
+      omega
+    · rw [hb] at hr; cases hr
+
+theorem readRequest_body_le {U : Type} (cfg : Cfg) (m : Nat) (hm : cfg.maxBody = some m) (hb : cfg.bodyErrReturned = true)
+    (ops : UrlOps U) (s : Bytes) (q : Request U) (r : Bytes) (h : readRequest cfg ops s = .ok (q, r)) :
+    q.body.length ≤ m := by
+  unfold readRequest at h
+  cases hl : readLine cfg s with
+  | error e => rw [hl] at h; cases h
+  | ok p =>
+    obtain ⟨line, rest⟩ := p
+    rw [hl] at h
+    simp only at h
+    cases ht : sliceFrom line (indexByte line 0x20 + 1) with
+    | error e => rw [ht] at h; cases h
+    | ok tail =>
+      rw [ht] at h
+      simp only at h
+      split at h
+      · cases h
+      · split at h
+        · split at h
+          · cases h
+          · split at h
+            · cases h
+            · split at h
+              · cases h
+              · split at h
+                · cases h
+                · split at h
+                  · cases h
+                  · rename_i hrb
+                    cases h
+                    exact readBody_le cfg m hm hb _ _ _ _ hrb
+        · cases h
+
+theorem readResponse_body_le (cfg : Cfg) (m : Nat) (hm : cfg.maxBody = some m) (hb : cfg.bodyErrReturned = true)
+    (s : Bytes) (q : Response) (r : Bytes) (h : readResponse cfg s = .ok (q, r)) :
+    q.body.length ≤ m := by
+  unfold readResponse at h
+  cases hl : readLine cfg s with
+  | error e => rw [hl] at h; cases h
+  | ok p =>
+    obtain ⟨line, rest⟩ := p
+    rw [hl] at h
+    simp only at h
+    split at h
+    · cases h
+    · split at h
+      · split at h
+        · cases h
+        · split at h
+          · cases h
+          · split at h
+            · split at h
+              · cases h
+              · split at h
+                · cases h
+                · split at h
+                  · cases h
+                  · rename_i hrb
+                    cases h
+                    exact readBody_le cfg m hm hb _ _ _ _ hrb
+            · cases h
+      · cases h
+theorem readLine_le (cfg : Cfg) (m : Nat) (hm : cfg.maxLine = some m) (s l r : Bytes)
+    (h : readLine cfg s = .ok (l, r)) : l.length ≤ m := by
+  unfold readLine at h
+  rw [hm] at h
+  by_cases he : s.isEmpty = true
+  · rw [if_pos he] at h; cases h
+  · rw [if_neg he] at h
+    cases hb : (breakLF s).2 with
+    | none =>
+      simp only [hb] at h
+      by_cases hl : (breakLF s).1.length > m
+      · simp [hl] at h
+      · simp only [hl, decide_false, Bool.false_eq_true, if_false] at h
+        cases h; omega
+    | some x =>
+      simp only [hb] at h
+      by_cases hl : (dropLastCR (breakLF s).1).length > m
+      · simp [hl] at h
+      · simp only [hl, decide_false, Bool.false_eq_true, if_false] at h
+        cases h; omega
 
 end IpcHub.RtspWire
